@@ -129,7 +129,9 @@ def run(ctx):
     # ---- clause 5: append position ---------------------------------------
     b = ctx.body(M.WAL_APPEND)
     seeks = [c for c in b.calls() if c.declared == SEEK or c.name.endswith("::seek")]
-    ctx.floor("C01.5", "seek sites in Wal::append", len(seeks), 1)
+    ctx.oblige(bool(seeks), "C01.5", "Wal::append:no-positioning",
+               "Wal::append does not position the file cursor itself (no seek): after a torn tail was truncated on open the cursor is still past the new "
+               "end of file, so acknowledged commits are written behind a hole and lost on the next reopen", b.file)
     # accepted idiom (a): the log is truncated to its valid length on open, inside wal.rs
     open_reach = F.reach([M.ENGINE_OPEN])
     trunc = [x for x in open_reach if x.startswith("nervusdb_storage::wal::") and any(c.name == M.FILE_SET_LEN for c in F.bodies[x].calls())] if True else []
